@@ -23,6 +23,24 @@ Proof.
 Qed.
 Print Assumptions c17_refines_spec.
 
+(** Refinement for ALL count limits, with the limit read as the code reads it
+    (0 = unlimited; [code_limit]): no guard. *)
+Theorem c17_refines_code_limit : forall lenlim limit ops,
+  (attrs_of (run_model lenlim limit ops), r_flat (run_model lenlim limit ops)) = run_spec lenlim (code_limit limit) ops.
+Proof. exact refines_all. Qed.
+Print Assumptions c17_refines_code_limit.
+
+(** The Emit path: logger.newRecord builds the record by adding the emitted
+    attributes one by one, then the processors edit it; for all limits and all
+    emitted attribute lists this is the specification with the emitted
+    attributes offered first (no extra drops when no value hides duplicate keys). *)
+Theorem c17_emit_refines : forall lenlim limit init ops,
+  let r := run_emit lenlim limit init ops in
+  (attrs_of r, r_flat r) = run_spec_emit lenlim (code_limit limit) init ops /\
+  (flat_attrs init = true -> flat_ops ops = true -> r_nested r = 0%nat).
+Proof. exact emit_refines. Qed.
+Print Assumptions c17_emit_refines.
+
 (** Count limit 0: the code behaves exactly as with no limit ... *)
 Theorem c17_limit_zero_is_unlimited : forall lenlim ops,
   run_model lenlim 0 ops = run_model lenlim (-1) ops.
@@ -147,6 +165,18 @@ Theorem c17_shallow_clone_refuted :
     observe (to_rec hp' hc') <> observe r.
 Proof. exact shallow_clone_refuted. Qed.
 Print Assumptions c17_shallow_clone_refuted.
+
+(** Non-vacuity: six emitted attributes cross the inline / overflow boundary, a
+    processor then overwrites the sixth (held in the overflow slice) and the first. *)
+Example ex_emit :
+  observe (run_emit (-1) 0 [(str "a", LStr (str "1")); (str "b", LStr (str "2")); (str "c", LStr (str "3"));
+                            (str "d", LStr (str "4")); (str "e", LStr (str "5")); (str "f", LStr (str "6"))]
+                    [OAdd [(str "f", LStr (str "F")); (str "a", LStr (str "A"))]]) =
+  {| o_attrs := [(str "a", LStr (str "A")); (str "b", LStr (str "2")); (str "c", LStr (str "3"));
+                 (str "d", LStr (str "4")); (str "e", LStr (str "5")); (str "f", LStr (str "F"))]; o_dropped := 2 |} /\
+  length (r_front (run_emit (-1) 0 [(str "a", LStr []); (str "b", LStr []); (str "c", LStr []); (str "d", LStr []);
+                                    (str "e", LStr []); (str "f", LStr [])] [])) = 5%nat.
+Proof. vm_compute. split; reflexivity. Qed.
 
 (** Non-vacuity. *)
 Definition ex_ops : list op :=
